@@ -413,6 +413,8 @@ class Verdict:
             print(f'KNOWN-FINDING: property={self.prop} {sig} {what}')
         for d in self.drift:
             print(f'DRIFT property={self.prop} {d}')
+        for n in self.notes[:5]:
+            print(f'NOTE property={self.prop} {n}')
         seen = set()
         for v in self.violations:
             if v['replay'] in seen:
